@@ -154,6 +154,9 @@ func GenTable(r *core.Rand, o GenOpts) *Table {
 		seenRoot[root.String()] = true
 		seenShape[root.Shape()] = true
 		svc := SvcSpec{ID: i, Root: root}
+		if o.Styles && len(root) > 0 && r.Chance(1, 8) {
+			svc.RootStyle = 1
+		}
 		nr := r.Range(1, o.MaxRoutes)
 		// small pool of paths so that routes collide on purpose
 		pool := make([]Tmpl, 0, 3)
